@@ -1,3 +1,5 @@
+use std::io::Write;
+
 use clap::CommandFactory;
 use clap_complete::{generate, Shell};
 
@@ -6,6 +8,8 @@ use crate::cli;
 pub fn generate_completion_file(shell: Shell) -> std::io::Result<()> {
     let mut cmd = cli::Opt::command();
     let bin_name = cmd.get_bin_name().unwrap_or(cmd.get_name()).to_string();
-    generate(shell, &mut cmd, bin_name, &mut std::io::stdout());
-    Ok(())
+    // (`generate` panics when it cannot write)
+    let mut completion = Vec::new();
+    generate(shell, &mut cmd, bin_name, &mut completion);
+    std::io::stdout().write_all(&completion)
 }
